@@ -34,9 +34,11 @@ def jobs(tier):
     for fn, typ, full, form in (("fill_t8", "VNACAL_T8", 0, 0), ("fill_t8", "VNACAL_TE10", 0, 0), ("fill_t16", "VNACAL_T16", 1, 1),
                                 ("fill_u8", "VNACAL_U8", 0, 2), ("fill_u8", "VNACAL_UE10", 0, 2), ("fill_u16", "VNACAL_U16", 1, 3),
                                 ("fill_ue14", "VNACAL_UE14", 0, 4)):
+        if fn == "fill_u16" and tier == "quick":
+            continue        # U16 n=2 needs > 200 s (products of sums in Z/256 on both sides): thorough only
         inc, sha = extract(fn)
         SHAS[fn] = sha
-        for n in (((2, 3) if not full else (2,)) if tier == "quick" else ((2, 3, 4) if not full else (2, 3))):
+        for n in (((2, 3) if not full else (2,)) if tier == "quick" else ((2, 3, 4) if not full else ((2, 3) if fn != "fill_u16" else (2,)))):
             J.append(V.Job("%s.%s.n%d" % (fn, typ, n), "vnacal/c01_fill.c", "h_fill_t", ["vnacal_layout.c"],
                            defines=["-DFILL_INC=\"%s\"" % inc, "-DFILL_FN=%s" % fn, "-DFILL_TYPE=%s" % typ,
                                     "-DFILL_FULL=%d" % full, "-DFILL_FORM=%d" % form, "-DN=%d" % n],
@@ -54,6 +56,27 @@ def jobs(tier):
                            union_struct=True, kind="bounded", canary=((p1, p2) == (3, 1) and t == "VNACAL_T8"),
                            functions=["_vnacal_new_add_common (cell maps)", "vnacal_new_add_line_m"],
                            bound="%s 3x3, two-port standard with abbreviated 2x2 M on ports (%d,%d); measured values symbolic" % (t, p1, p2),
+                           timeout=300))
+    import C15
+    asrc = ["vnacal_apply.c", "vnacal_create.c", "vnacal_free.c", "vnacal_calibration.c", "vnacal_parameter.c",
+            "vnacal_layout.c", "vnacal_error.c", "vnacal_get.c"] + C15.SRCS
+    for t, form in (("VNACAL_T8", "T8"), ("VNACAL_U8", "U8"), ("VNACAL_UE14", None), ("VNACAL_E12", None),
+                    ("VNACAL_T16", None), ("VNACAL_TE10", "T8"), ("VNACAL_UE10", "U8"), ("VNACAL_U16", None)):
+        for nf in (2, 0):
+            if nf == 0 and t not in ("VNACAL_T8", "VNACAL_UE14"):
+                continue
+            if tier == "quick" and t in ("VNACAL_TE10", "VNACAL_UE10", "VNACAL_U16"):
+                continue
+            # nf == 0: own memcpy model (CBMC's built-in one flags memcpy(NULL, p, 0), which vnadata_set_frequency_vector does for an empty object)
+            d = (["-DVERIF_BUILTIN_MEM"] if nf else []) + ["-DCAL_TYPE=%s" % t, "-DN_APPLY=%d" % nf] + (["-DCHECK_FORM_%s" % form] if form else [])
+            J.append(V.Job("apply_frame.%s_f%d" % (t[7:], nf), "vnacal/c01_apply.c", "h_apply_frame", asrc, defines=d, unwind=20,
+                           unwindset={"_vnacal_calibration_alloc.0": 26, "_vnacal_calibration_free.0": 26},
+                           union_struct=True, kind="bounded", canary=(t == "VNACAL_T8" and nf == 2),
+                           functions=["vnacal_apply_m", "_vnacal_apply_common", "fill_t8", "fill_u8", "fill_t16", "fill_u16",
+                                      "fill_ue14", "fill_e12", "_vnacal_calibration_get_fmin_bound",
+                                      "_vnacal_calibration_get_fmax_bound", "_vnacal_get_calibration"],
+                           bound="%s 2x2 calibration with 3 frequencies, apply_m at %d frequencies (one between knots); marker error terms and "
+                                 "measurements, kernels and _vnacal_rfi by recording contract, determinant symbolic" % (t, nf),
                            timeout=300))
     seqs = [("grow_16_first", "16,3,4,5,6,7,8,9"), ("grow_16_last", "3,4,5,6,7,8,16,9"), ("grow_no_collision", "3,4,5,6,7,8,9,10"),
             ("small", "16,3")]
